@@ -787,8 +787,10 @@ def random(expression: exp.Expression) -> exp.Expression:
         # (not max BIGINT (int64) because we don't have enough floating point precision to distinguish seeds)
         # then attach to the statement as the seed arg
         # (we can't attach it to exp.Rand because it will be rendered in the sql)
-        if expression.this and isinstance(expression.this, exp.Literal):
-            expression.root().args["seed"] = f"{expression.this}/2147483647-0.5"
+        seed = expression.this
+        # a negative seed is parsed as a unary minus applied to a literal
+        if isinstance(seed, exp.Literal) or (isinstance(seed, exp.Neg) and isinstance(seed.this, exp.Literal)):
+            expression.root().args["seed"] = f"{seed.sql()}/2147483647-0.5"
 
         # shift result to between min and max signed 64bit integer
         # (each RANDOM call is replaced where it stands, so several calls and calls inside CTEs or subqueries work)
